@@ -199,7 +199,11 @@ func init() {
 		}
 		ammOnly := v.Gen(w, c, gen.Mix{"swapIn1": 10, "swapOut1": 5, "joinSingle": 4, "joinAll": 3, "exit": 3})
 		ammOnly.Free(12, nil)
-		g.Free(n-4*seg, g.StdDt)
+		if c.Job.Index%3 == 1 && !w.Dead {
+			NewChaos(c, w, g).Run(n-4*seg, g.StdDt)
+		} else {
+			g.Free(n-4*seg, g.StdDt)
+		}
 		// every third instance ends with the custody-exhaustion schedules of the faults catalogue
 		// (a year of one block by governance, then owners close parts of their positions)
 		if c.Job.Index%3 == 2 && !w.Dead {
